@@ -1,31 +1,570 @@
+// Command translator regenerates coq/Gen/SyncTable.v from the Go source of the casbin
+// SyncedEnforcer (DESIGN.md Appendix B).  For every method declared with receiver
+// *SyncedEnforcer it extracts the ordered critical sections on the RWMutex e.m (SSA control
+// flow, all paths), and for each section the may-access sets of shared memory of everything
+// called inside it (transitive, interface calls resolved to the implementations in the module,
+// function values resolved by signature), classified plain / synchronised.
+//
+// The analysis is part of the trusted base.  It is conservative in the places listed in
+// README.md; sites it cannot prove local can be removed only through benign.txt.
 package main
 
 import (
+	"bufio"
+	"encoding/json"
+	"flag"
 	"fmt"
+	"go/types"
 	"os"
-	"time"
+	"path/filepath"
+	"sort"
+	"strings"
 
 	"golang.org/x/tools/go/packages"
 	"golang.org/x/tools/go/ssa"
 	"golang.org/x/tools/go/ssa/ssautil"
 )
 
+const modPath = "github.com/casbin/casbin/v2"
+
+type Consts struct {
+	StopSendNonblocking bool `json:"stop_send_nonblocking"`
+	StartUsesCAS        bool `json:"start_uses_cas"`
+	StartDrains         bool `json:"start_drains_stale_stop"`
+	LoaderClearsFlag    bool `json:"loader_clears_flag_on_exit"`
+}
+
+func fatal(f string, a ...interface{}) {
+	fmt.Fprintf(os.Stderr, "translator: "+f+"\n", a...)
+	os.Exit(1)
+}
+
+func readBenign(path string, A *Analyzer) []*benignEntry {
+	var list []*benignEntry
+	fh, err := os.Open(path)
+	if err != nil {
+		if os.IsNotExist(err) {
+			return nil
+		}
+		fatal("%v", err)
+	}
+	defer fh.Close()
+	sc := bufio.NewScanner(fh)
+	ln := 0
+	for sc.Scan() {
+		ln++
+		line := strings.TrimSpace(sc.Text())
+		if line == "" || strings.HasPrefix(line, "#") {
+			continue
+		}
+		parts := strings.Split(line, "|")
+		if len(parts) != 4 {
+			fatal("%s:%d: want `function | location | via-callee | reason`", path, ln)
+		}
+		for i := range parts {
+			parts[i] = strings.TrimSpace(parts[i])
+		}
+		if parts[3] == "" {
+			fatal("%s:%d: a reason is required", path, ln)
+		}
+		e := &benignEntry{Key: benignKey{parts[0], parts[1], parts[2]}, Reason: parts[3], Line: ln}
+		A.benign[e.Key] = e
+		list = append(list, e)
+	}
+	return list
+}
+
 func main() {
-	t0 := time.Now()
-	cfg := &packages.Config{Dir: "/repo", Mode: packages.LoadAllSyntax, Env: append(os.Environ(), "GOFLAGS=-mod=mod", "GOPROXY=off", "GOSUMDB=off", "GOTOOLCHAIN=local")}
+	repo := flag.String("repo", "/repo", "casbin checkout")
+	out := flag.String("out", "", "Coq file to (re)write")
+	jsonOut := flag.String("json", "", "JSON dump (default: <out> with .json)")
+	benignPath := flag.String("benign", "", "allow-list (default: benign.txt next to the translator sources)")
+	dump := flag.String("dump", "", "print the accesses of one wrapper (debug)")
+	flag.Parse()
+	if *benignPath == "" {
+		exe, _ := os.Executable()
+		*benignPath = filepath.Join(filepath.Dir(filepath.Dir(exe)), "benign.txt")
+	}
+	cfg := &packages.Config{Dir: *repo, Mode: packages.LoadAllSyntax,
+		Env: append(os.Environ(), "GOFLAGS=-mod=mod", "GOPROXY=off", "GOSUMDB=off", "GOTOOLCHAIN=local")}
 	pkgs, err := packages.Load(cfg, "./...")
 	if err != nil {
-		panic(err)
+		fatal("load: %v", err)
 	}
-	fmt.Println("loaded", len(pkgs), time.Since(t0))
-	prog, spkgs := ssautil.AllPackages(pkgs, 0)
-	n := 0
+	nerr := 0
+	packages.Visit(pkgs, nil, func(p *packages.Package) {
+		for _, e := range p.Errors {
+			if strings.HasPrefix(p.PkgPath, modPath) {
+				fmt.Fprintln(os.Stderr, e)
+				nerr++
+			}
+		}
+	})
+	if nerr > 0 {
+		fatal("%s does not type-check", *repo)
+	}
+	prog, _ := ssautil.AllPackages(pkgs, 0)
+	var root *ssa.Package
 	for _, p := range prog.AllPackages() {
-		if p.Pkg.Path() == "github.com/casbin/govaluate" || len(p.Pkg.Path()) >= 27 && p.Pkg.Path()[:27] == "github.com/casbin/casbin/v2" {
+		path := p.Pkg.Path()
+		if path == "github.com/casbin/govaluate" || path == modPath || strings.HasPrefix(path, modPath+"/") {
 			p.Build()
-			n++
+			builtPkgs[p] = true
+		}
+		if path == modPath {
+			root = p
 		}
 	}
-	_ = ssa.NaiveForm
-	fmt.Println("built", n, len(spkgs), time.Since(t0))
+	if root == nil {
+		fatal("package %s not found", modPath)
+	}
+	st := root.Type("SyncedEnforcer")
+	if st == nil {
+		fatal("type SyncedEnforcer not found")
+	}
+	A := newAnalyzer(prog)
+	benignList := readBenign(*benignPath, A)
+
+	// the wrapped API: methods DECLARED with receiver *SyncedEnforcer
+	pt := types.NewPointer(st.Type())
+	ms := prog.MethodSets.MethodSet(pt)
+	var wrappers []wfn
+	var promoted []string
+	for i := 0; i < ms.Len(); i++ {
+		sel := ms.At(i)
+		fn := prog.MethodValue(sel)
+		if fn == nil {
+			continue
+		}
+		if fn.Synthetic != "" {
+			if sel.Obj().Exported() {
+				promoted = append(promoted, sel.Obj().Name())
+			}
+			continue
+		}
+		wrappers = append(wrappers, wfn{sel.Obj().Name(), fn})
+	}
+	sort.Slice(wrappers, func(i, j int) bool { return wrappers[i].name < wrappers[j].name })
+	sort.Strings(promoted)
+	var goBodies []wfn
+	for _, w := range wrappers {
+		A.record[w.fn] = true
+		A.need(w.fn)
+		n := 0
+		for _, b := range w.fn.Blocks {
+			for _, ins := range b.Instrs {
+				if g, ok := ins.(*ssa.Go); ok {
+					if mc, ok := g.Common().Value.(*ssa.MakeClosure); ok {
+						n++
+						f := mc.Fn.(*ssa.Function)
+						A.record[f] = true
+						A.need(f)
+						goBodies = append(goBodies, wfn{fmt.Sprintf("%s$go%d", w.name, n), f})
+					}
+				}
+			}
+		}
+	}
+	A.run()
+
+	var table []*Wrapper
+	for _, w := range wrappers {
+		wr, _ := A.analyzeWrapper(w.fn, w.name, false)
+		table = append(table, wr)
+	}
+	for _, g := range goBodies {
+		wr, _ := A.analyzeWrapper(g.fn, g.name, true)
+		table = append(table, wr)
+	}
+	// a location synchronised by two different mutexes is not synchronised
+	demoted := map[string]bool{}
+	for loc, gs := range A.guardsOf {
+		if len(gs) > 1 {
+			demoted[loc] = true
+			A.note("location " + loc + " is bracketed by different mutexes; its accesses are classed plain")
+		}
+	}
+	for _, wr := range table {
+		for _, s := range wr.Sections {
+			for k, v := range s.Acc {
+				if demoted[k.Loc] && (k.Kind == 'R' || k.Kind == 'W') {
+					delete(s.Acc, k)
+					nk := accOut{byte(strings.ToLower(string(k.Kind))[0]), k.Loc}
+					s.Acc[nk] = v
+				}
+			}
+		}
+	}
+	for _, e := range benignList {
+		if e.Used == 0 {
+			fatal("%s:%d: allow-list entry matches no site any more (%s | %s | %s): remove it", *benignPath, e.Line, e.Key.Fn, e.Key.Loc, e.Key.Via)
+		}
+	}
+	consts := autoLoadConsts(A, wrappers2map(wrappers))
+
+	if *dump != "" {
+		for _, wr := range table {
+			if wr.Name == *dump {
+				for i, s := range wr.Sections {
+					fmt.Printf("section %d mode %s callees %v\n", i, s.Mode, keys(s.Callees))
+					var ks []accOut
+					for k := range s.Acc {
+						ks = append(ks, k)
+					}
+					sort.Slice(ks, func(i, j int) bool {
+						if ks[i].Kind != ks[j].Kind {
+							return ks[i].Kind < ks[j].Kind
+						}
+						return ks[i].Loc < ks[j].Loc
+					})
+					for _, k := range ks {
+						fmt.Printf("  %c %-60s %s\n", k.Kind, k.Loc, s.Acc[k])
+					}
+				}
+				fmt.Println("irregular:", wr.Irregular, "api:", keys(wr.APICalls), "spawns:", wr.Spawns)
+			}
+		}
+	}
+	if *out == "" {
+		summary(table)
+		return
+	}
+	emit(*out, *jsonOut, *repo, table, consts, benignList, A, promoted)
+}
+
+type wfn struct {
+	name string
+	fn   *ssa.Function
+}
+
+func wrappers2map(ws []wfn) map[string]*ssa.Function {
+	m := map[string]*ssa.Function{}
+	for _, w := range ws {
+		m[w.name] = w.fn
+	}
+	return m
+}
+
+func keys(m map[string]bool) []string {
+	var r []string
+	for k := range m {
+		r = append(r, k)
+	}
+	sort.Strings(r)
+	return r
+}
+
+func summary(table []*Wrapper) {
+	for _, wr := range table {
+		var parts []string
+		for _, s := range wr.Sections {
+			n := map[byte]int{}
+			for k := range s.Acc {
+				n[k.Kind]++
+			}
+			parts = append(parts, fmt.Sprintf("%s(r%d w%d R%d W%d)", s.Mode, n['r'], n['w'], n['R'], n['W']))
+		}
+		fmt.Printf("%-40s %s %s\n", wr.Name, strings.Join(parts, " "), wr.Irregular)
+		for _, s := range wr.Sections {
+			if s.Mode != "W" {
+				for k, v := range s.Acc {
+					if k.Kind == 'w' {
+						fmt.Printf("      PLAIN WRITE in %s section: %s  at %s\n", s.Mode, k.Loc, v)
+					}
+				}
+			}
+		}
+	}
+}
+
+// autoLoadConsts reads the shape of the auto-load protocol off the SSA of
+// StartAutoLoadPolicy / StopAutoLoadPolicy so that the Coq model follows the source.
+func autoLoadConsts(A *Analyzer, ws map[string]*ssa.Function) Consts {
+	var c Consts
+	chanLoc := "casbin.SyncedEnforcer.stopAutoLoad"
+	flagLoc := "casbin.SyncedEnforcer.autoLoadRunning"
+	if stop := ws["StopAutoLoadPolicy"]; stop != nil {
+		bare, nb := 0, 0
+		for _, b := range stop.Blocks {
+			for _, ins := range b.Instrs {
+				switch x := ins.(type) {
+				case *ssa.Send:
+					if locOf(x.Chan) == chanLoc {
+						bare++
+					}
+				case *ssa.Select:
+					for _, s := range x.States {
+						if s.Dir == types.SendOnly && locOf(s.Chan) == chanLoc {
+							if x.Blocking {
+								bare++
+							} else {
+								nb++
+							}
+						}
+					}
+				}
+			}
+		}
+		c.StopSendNonblocking = bare == 0 && nb > 0
+	}
+	if start := ws["StartAutoLoadPolicy"]; start != nil {
+		for _, b := range start.Blocks {
+			for _, ins := range b.Instrs {
+				switch x := ins.(type) {
+				case *ssa.Call:
+					if f := x.Common().StaticCallee(); f != nil && f.Pkg != nil && f.Pkg.Pkg.Path() == "sync/atomic" &&
+						strings.HasPrefix(f.Name(), "CompareAndSwap") && len(x.Common().Args) > 0 && locOf(x.Common().Args[0]) == flagLoc {
+						c.StartUsesCAS = true
+					}
+				case *ssa.Select:
+					for _, s := range x.States {
+						if s.Dir == types.RecvOnly && locOf(s.Chan) == chanLoc && !x.Blocking {
+							c.StartDrains = true
+						}
+					}
+				}
+			}
+		}
+		for _, an := range start.AnonFuncs {
+			var all []*ssa.Function
+			collectGroup(an, &all)
+			for _, g := range all {
+				for _, b := range g.Blocks {
+					for _, ins := range b.Instrs {
+						if x, ok := ins.(*ssa.Call); ok {
+							if f := x.Common().StaticCallee(); f != nil && f.Pkg != nil && f.Pkg.Pkg.Path() == "sync/atomic" &&
+								strings.HasPrefix(f.Name(), "Store") && len(x.Common().Args) > 0 && locOf(x.Common().Args[0]) == flagLoc {
+								c.LoaderClearsFlag = true
+							}
+						}
+					}
+				}
+			}
+		}
+	}
+	return c
+}
+
+// ---------------------------------------------------------------- output
+
+type jsonSection struct {
+	Mode    string   `json:"mode"`
+	Callees []string `json:"callees"`
+	PR      []string `json:"plain_reads"`
+	PW      []string `json:"plain_writes"`
+	AR      []string `json:"sync_reads"`
+	AW      []string `json:"sync_writes"`
+	PWSites []string `json:"plain_write_sites"`
+	AWSites []string `json:"sync_write_sites"`
+}
+
+type jsonWrapper struct {
+	Name      string        `json:"name"`
+	File      string        `json:"file"`
+	Irregular string        `json:"irregular,omitempty"`
+	Sections  []jsonSection `json:"sections"`
+	APICalls  []string      `json:"api_calls,omitempty"`
+	Spawns    []string      `json:"spawns,omitempty"`
+	Synthetic bool          `json:"goroutine_body,omitempty"`
+	Exception string        `json:"exception,omitempty"`
+}
+
+type jsonDump struct {
+	Repo       string        `json:"repo"`
+	Wrappers   []jsonWrapper `json:"wrappers"`
+	Consts     Consts        `json:"constants"`
+	Benign     []string      `json:"benign_applied"`
+	Notes      []string      `json:"notes"`
+	Excluded   []string      `json:"excluded_test_doubles"`
+	Promoted   []string      `json:"promoted_unwrapped_methods"`
+	Functions  int           `json:"functions_analysed"`
+	Exceptions [][2]string   `json:"exceptions"`
+}
+
+func coqStr(s string) string { return "\"" + strings.ReplaceAll(s, "\"", "\"\"") + "\"" }
+
+func coqStrList(ss []string) string {
+	q := make([]string, len(ss))
+	for i, s := range ss {
+		q[i] = coqStr(s)
+	}
+	return "[" + strings.Join(q, "; ") + "]"
+}
+
+func coqBool(b bool) string {
+	if b {
+		return "true"
+	}
+	return "false"
+}
+
+func classify(wr *Wrapper) string {
+	if wr.Synthetic || wr.Irregular != "" {
+		return ""
+	}
+	if len(wr.Sections) > 1 {
+		return "F19"
+	}
+	if len(wr.Sections) == 1 && wr.Sections[0].Mode == "R" {
+		for k := range wr.Sections[0].Acc {
+			if k.Kind == 'W' {
+				return "F20"
+			}
+		}
+	}
+	return ""
+}
+
+func emit(out, jsonOut, repo string, table []*Wrapper, consts Consts, benign []*benignEntry, A *Analyzer, promoted []string) {
+	locSet := map[string]bool{}
+	for _, wr := range table {
+		for _, s := range wr.Sections {
+			for k := range s.Acc {
+				locSet[k.Loc] = true
+			}
+		}
+	}
+	var locs []string
+	for l := range locSet {
+		locs = append(locs, l)
+	}
+	sort.Strings(locs)
+	id := map[string]int{}
+	for i, l := range locs {
+		id[l] = i
+	}
+	var b strings.Builder
+	b.WriteString("(* GENERATED by /verif/translator from the Go source of SyncedEnforcer -- do not edit.\n")
+	b.WriteString("   Rewritten by the `pre` step of props/C12.json and props/C13.json on every run.\n")
+	b.WriteString("   One entry per method declared with receiver *SyncedEnforcer (plus the goroutine bodies\n")
+	b.WriteString("   they start): the ordered critical sections on e.m and, per section, the abstract\n")
+	b.WriteString("   locations that may be accessed inside it: s_pr/s_pw plain reads/writes, s_ar/s_aw reads/\n")
+	b.WriteString("   writes through sync.Map, sync/atomic, channels or a callee's own mutex. *)\n")
+	b.WriteString("From Coq Require Import List String NArith.\nFrom Casbin Require Import Sync.\nImport ListNotations.\nOpen Scope string_scope.\nOpen Scope N_scope.\n\n")
+	b.WriteString("Definition loc_names : list (N * string) := [\n")
+	for i, l := range locs {
+		sep := ";"
+		if i == len(locs)-1 {
+			sep = ""
+		}
+		fmt.Fprintf(&b, "  (%d, %s)%s\n", i, coqStr(l), sep)
+	}
+	b.WriteString("].\n\n")
+	nums := func(s *Section, kind byte) string {
+		var ns []int
+		for k := range s.Acc {
+			if k.Kind == kind {
+				ns = append(ns, id[k.Loc])
+			}
+		}
+		sort.Ints(ns)
+		q := make([]string, len(ns))
+		for i, n := range ns {
+			q[i] = fmt.Sprint(n)
+		}
+		return "[" + strings.Join(q, "; ") + "]"
+	}
+	names := func(s *Section, kind byte, sites bool) []string {
+		var r []string
+		for k, v := range s.Acc {
+			if k.Kind == kind {
+				if sites {
+					r = append(r, k.Loc+" @ "+v)
+				} else {
+					r = append(r, k.Loc)
+				}
+			}
+		}
+		sort.Strings(r)
+		if r == nil {
+			r = []string{}
+		}
+		return r
+	}
+	jd := jsonDump{Repo: repo, Consts: consts, Promoted: promoted, Functions: len(A.order)}
+	b.WriteString("Definition table : list wrapper := [\n")
+	var exceptions [][2]string
+	var irregulars [][2]string
+	for i, wr := range table {
+		shape := "Regular"
+		if wr.Irregular != "" {
+			shape = "Irregular"
+			irregulars = append(irregulars, [2]string{wr.Name, wr.Irregular})
+		}
+		fmt.Fprintf(&b, "  {| w_name := %s; w_shape := %s; w_sections := [", coqStr(wr.Name), shape)
+		jw := jsonWrapper{Name: wr.Name, File: wr.File, Irregular: wr.Irregular, APICalls: keys(wr.APICalls), Spawns: wr.Spawns, Synthetic: wr.Synthetic}
+		for j, s := range wr.Sections {
+			m := map[string]string{"R": "R", "W": "W", "N": "NoLock"}[s.Mode]
+			if j > 0 {
+				b.WriteString(";")
+			}
+			fmt.Fprintf(&b, "\n     {| s_mode := %s; s_callees := %s;\n        s_pr := %s;\n        s_pw := %s;\n        s_ar := %s;\n        s_aw := %s |}",
+				m, coqStrList(keys(s.Callees)), nums(s, 'r'), nums(s, 'w'), nums(s, 'R'), nums(s, 'W'))
+			jw.Sections = append(jw.Sections, jsonSection{Mode: s.Mode, Callees: keys(s.Callees), PR: names(s, 'r', false), PW: names(s, 'w', false),
+				AR: names(s, 'R', false), AW: names(s, 'W', false), PWSites: names(s, 'w', true), AWSites: names(s, 'W', true)})
+		}
+		sep := ";"
+		if i == len(table)-1 {
+			sep = ""
+		}
+		fmt.Fprintf(&b, "] |}%s\n", sep)
+		if ex := classify(wr); ex != "" {
+			exceptions = append(exceptions, [2]string{wr.Name, ex})
+			jw.Exception = ex
+		}
+		jd.Wrappers = append(jd.Wrappers, jw)
+	}
+	b.WriteString("].\n\n")
+	pairs := func(name, comment string, ps [][2]string) {
+		fmt.Fprintf(&b, "(* %s *)\nDefinition %s : list (string * string) := [", comment, name)
+		for i, p := range ps {
+			if i > 0 {
+				b.WriteString(";")
+			}
+			fmt.Fprintf(&b, "\n  (%s, %s)", coqStr(p[0]), coqStr(p[1]))
+		}
+		b.WriteString("].\n\n")
+	}
+	pairs("exceptions", "wrappers that are not one write section / one write-free read section, labelled with the known finding the shape belongs to (Sync.v re-checks every label against the finding's signature)", exceptions)
+	pairs("irregular_reasons", "why a wrapper was emitted as Irregular", irregulars)
+	b.WriteString("(* shape of the auto-load protocol as found in Start/StopAutoLoadPolicy *)\n")
+	fmt.Fprintf(&b, "Definition stop_send_nonblocking : bool := %s.\n", coqBool(consts.StopSendNonblocking))
+	fmt.Fprintf(&b, "Definition start_uses_cas : bool := %s.\n", coqBool(consts.StartUsesCAS))
+	fmt.Fprintf(&b, "Definition start_drains_stale_stop : bool := %s.\n", coqBool(consts.StartDrains))
+	fmt.Fprintf(&b, "Definition loader_clears_flag_on_exit : bool := %s.\n\n", coqBool(consts.LoaderClearsFlag))
+	var bl [][2]string
+	for _, e := range benign {
+		bl = append(bl, [2]string{e.Key.Fn + " | " + e.Key.Loc + " | via " + e.Key.Via, e.Reason})
+		jd.Benign = append(jd.Benign, fmt.Sprintf("%s | %s | via %s | %s (matched %d site(s))", e.Key.Fn, e.Key.Loc, e.Key.Via, e.Reason, e.Used))
+	}
+	pairs("benign_applied", "sites removed through translator/benign.txt (trusted)", bl)
+	jd.Exceptions = exceptions
+	for n := range A.notes {
+		jd.Notes = append(jd.Notes, n)
+	}
+	sort.Strings(jd.Notes)
+	for n := range A.excluded {
+		jd.Excluded = append(jd.Excluded, n)
+	}
+	sort.Strings(jd.Excluded)
+	writeIfChanged(out, []byte(b.String()))
+	if jsonOut == "" {
+		jsonOut = strings.TrimSuffix(out, ".v") + ".json"
+	}
+	js, _ := json.MarshalIndent(jd, "", " ")
+	writeIfChanged(jsonOut, js)
+	fmt.Printf("translator: %d wrappers (%d irregular), %d locations, %d exceptions, %d functions analysed, %d allow-list entries\n",
+		len(table), len(irregulars), len(locs), len(exceptions), len(A.order), len(benign))
+}
+
+func writeIfChanged(path string, data []byte) {
+	if old, err := os.ReadFile(path); err == nil && string(old) == string(data) {
+		return
+	}
+	if err := os.MkdirAll(filepath.Dir(path), 0o755); err != nil {
+		fatal("%v", err)
+	}
+	if err := os.WriteFile(path, data, 0o644); err != nil {
+		fatal("%v", err)
+	}
 }
